@@ -1,17 +1,79 @@
 package main
 
 import (
+	"strings"
+
 	"verif/harness/core"
 	"verif/harness/g6blib"
 )
 
+// Known findings of C06 (details: /verif/findings/C06.md).
+const (
+	sigF9         = "in-subquery-null-antijoin-mergejoin"        // same defect and matcher as C05
+	sigF5         = "in-list-ignores-ci-collation"               // x IN ('A') over an _ai_ci column vs x = 'A'
+	sigF14        = "inlist-int-decimal-literals-hash-in-rounds" // b IN (1, 2.5) vs b = 1 OR b = 2.5
+	sigF10        = "inlist-all-fractional-on-indexed-int-panics"
+	sigTupNull    = "tuple-in-null-component-not-three-valued"
+	sigErrEmpty   = "c06:join-on-where:error-in-one-spelling:join-on:1105:failed-to-replan-join-unknown-type-for-rel-outpu"
+	sigErrTupNil  = "c06:in-or:error-in-one-spelling:in-list:1105:value-not-nil"
+	sigG1         = "neq-fractional-literal-on-indexed-decimal-keeps-equal-row" // C05's finding, reached through the OR-chain spelling
+	sigHashCI     = "hash-join-key-on-ci-strings-hashes-binary"
+	sigScalarAnti = "scalar-subquery-neq-antijoin-lost-under-semijoin"
+)
+
 func classifyPanic(pc *pairCase, pn *core.PanicInfo) string {
+	// F10: the IN-list spelling over an indexed integer column whose list holds only fractional literals
+	if pc.rule == "in-or" && strings.HasPrefix(pn.Sig(), "panic:sql/transform.Expr:runtime error: invalid memory address") {
+		for _, n := range rewritten(pc.pred) {
+			if n.Op == "inlist" && n.Args[0].Kind == g6blib.KInt {
+				frac := true
+				for _, a := range n.Args[1:] {
+					frac = frac && g6blib.IsFracLit(a)
+				}
+				if frac {
+					return sigF10
+				}
+			}
+		}
+	}
 	return "c06:" + pc.rule + ":" + pn.Sig()
 }
 
-// classify gives a violated group its signature: rule, which spellings differ, and the skeleton of the
-// minimised predicate when the rule has one.
+// rewritten collects the IN-list nodes of a predicate (including those inside subquery filters).
+func rewritten(p *g6blib.Expr) []*g6blib.Expr {
+	var out []*g6blib.Expr
+	p.Walk(func(e *g6blib.Expr) {
+		if e.Op == "inlist" || e.Op == "tuplein" {
+			out = append(out, e)
+		}
+	})
+	return out
+}
+
+func isIntLit(e *g6blib.Expr) bool {
+	return e.Op == "lit" && e.Kind == g6blib.KInt && e.Name != "NULL"
+}
+
+// classify gives a violated group its signature: a known family when its matcher applies, else
+// "c06:<rule>:<which spellings differ>:<skeleton of the minimised predicate or the group's shape>".
 func classify(s *core.Sess, sc *g6blib.Schema, pc *pairCase, mode string) (string, map[string]any) {
+	// F9 (via=signature): a spelling negates IN (subquery) into an anti-join run as LeftOuterMergeJoin; with
+	// merge joins disabled all spellings agree.
+	text, merge := "", false
+	for _, sp := range pc.spells {
+		text += sp.query
+		if len(sp.pre) == 0 && strings.Contains(s.Plan(sp.query), "LeftOuterMergeJoin") {
+			merge = true
+		}
+	}
+	if merge && strings.Contains(text, " IN (SELECT ") {
+		s.MustExec("SET @@SESSION.disable_merge_join = 1")
+		v, _, _, _ := compare(s, pc.spells)
+		s.MustExec("SET @@SESSION.disable_merge_join = 0")
+		if v == "held" {
+			return sigF9, nil
+		}
+	}
 	if pc.rebuild == nil || pc.pred == nil {
 		return "c06:" + pc.rule + ":" + mode + ":" + pc.shape, nil
 	}
@@ -22,7 +84,222 @@ func classify(s *core.Sess, sc *g6blib.Schema, pc *pairCase, mode string) (strin
 	sp := pc.rebuild(mp)
 	_, m2, det, _ := compare(s, sp)
 	extra := map[string]any{"minimized": map[string]any{"predicate": mp.SQL(), "mode": m2, "detail": det}}
+	if pc.rule == "in-or" {
+		nodes := rewritten(mp)
+		allCI, allMixed, allTuple := len(nodes) > 0, len(nodes) > 0, len(nodes) > 0
+		for _, n := range nodes {
+			ci := n.Args[0].Kind == g6blib.KCI || (n.Op == "tuplein" && n.Args[1].Kind == g6blib.KCI)
+			if !ci {
+				allCI = false
+			}
+			hasInt, hasFrac := false, false
+			if n.Op == "inlist" {
+				for _, a := range n.Args[1:] {
+					hasInt = hasInt || isIntLit(a)
+					hasFrac = hasFrac || g6blib.IsFracLit(a)
+				}
+			}
+			if !(hasInt && hasFrac) && !(n.Op == "inlist" && n.Args[0].Kind == g6blib.KInt && hasFrac) {
+				allMixed = false
+			}
+			if n.Op != "tuplein" || ci {
+				allTuple = false
+			}
+		}
+		allG1 := len(nodes) > 0
+		for _, n := range nodes {
+			l := n.Args[0]
+			ok := n.Op == "inlist" && l.Op == "col" && l.Kind == g6blib.KDec && l.Ref != nil && l.Ref.Indexed
+			if ok {
+				ok = false
+				for _, a := range n.Args[1:] {
+					ok = ok || g6blib.IsFracLit(a)
+				}
+			}
+			allG1 = allG1 && ok
+		}
+		switch {
+		case allG1 && strings.Contains(m2, "in-list≠or-chain"):
+			// the OR chain under NOT becomes d <> 2.50 on an indexed DECIMAL column (C05 finding)
+			return sigG1, extra
+		case allCI:
+			return sigF5, extra
+		case allMixed:
+			return sigF14, extra
+		case allTuple && tupleNullInvolved(s, pc, mp, det, sp):
+			return sigTupNull, extra
+		}
+	}
+	// a `<>` against a scalar subquery is unnested into an AntiJoin which is lost when an IN/EXISTS subquery of the
+	// same conjunction is unnested into a SemiJoin on top of it; the other spelling keeps the subqueries as
+	// filter expressions (plan-dependent wrong result, not caused by the rewrite rule itself)
+	{
+		neqScalar, semi := false, false
+		mp.Walk(func(e *g6blib.Expr) {
+			if e.Op == "cmp" && e.Name == "<>" && (e.Args[0].Op == "scalar" || e.Args[1].Op == "scalar") {
+				neqScalar = true
+			}
+			if e.Op == "insub" || e.Op == "exists" {
+				semi = true
+			}
+		})
+		if neqScalar && semi {
+			for _, x := range sp {
+				if pl := s.Plan(x.query); strings.Contains(pl, "AntiJoin") && strings.Contains(pl, "SemiJoin") {
+					return sigScalarAnti, extra
+				}
+			}
+		}
+	}
+	if pc.rule == "join-on-where" {
+		ciEq := false
+		mp.Walk(func(e *g6blib.Expr) {
+			if e.Op == "cmp" && (e.Name == "=" || e.Name == "<=>") && e.Args[0].Kind == g6blib.KCI && e.Args[1].Kind == g6blib.KCI {
+				ciEq = true
+			}
+		})
+		hashed := false
+		for _, x := range sp {
+			if strings.Contains(s.Plan(x.query), "HashLookup") {
+				hashed = true
+			}
+		}
+		if ciEq && hashed {
+			var hinted []spelling
+			for _, x := range sp {
+				hinted = append(hinted, spelling{name: x.name, query: strings.Replace(x.query, "SELECT ", "SELECT /*+ INNER_JOIN(x0,x1) */ ", 1)})
+			}
+			if v, _, _, _ := compare(s, hinted); v == "held" {
+				return sigHashCI, extra
+			}
+		}
+	}
 	return "c06:" + pc.rule + ":" + m2 + ":" + mp.Shape(), extra
 }
 
-func pinned(r *core.Run) {}
+// tupleNullInvolved: the minimised predicate is one tuple IN and every row on which the two spellings differ
+// has a NULL component on the left or in the list.
+func tupleNullInvolved(s *core.Sess, pc *pairCase, mp *g6blib.Expr, det map[string]any, sp []spelling) bool {
+	n := mp
+	if n.Op == "not" {
+		n = n.Args[0]
+	}
+	if n.Op != "tuplein" {
+		return false
+	}
+	for _, a := range n.Args[2:] {
+		if a.Op == "lit" && a.Name == "NULL" {
+			return true
+		}
+	}
+	// ids on which the results differ
+	a, _ := det[sp[0].name+".result"].([]string)
+	b, _ := det[sp[1].name+".result"].([]string)
+	key := func(row string) string {
+		f := strings.Split(row, "|")
+		if len(f) > pc.nid {
+			f = f[:pc.nid]
+		}
+		return strings.Join(f, "|")
+	}
+	cnt := map[string]int{}
+	for _, r := range a {
+		cnt[r]++
+	}
+	for _, r := range b {
+		cnt[r]--
+	}
+	diff := map[string]bool{}
+	for r, c := range cnt {
+		if c != 0 {
+			diff[key(r)] = true
+		}
+	}
+	// rows with a NULL left component, obtained through the same query shape
+	isNull := &g6blib.Expr{Op: "or", Kind: g6blib.KBool, Args: []*g6blib.Expr{
+		{Op: "isnull", Kind: g6blib.KBool, Args: []*g6blib.Expr{n.Args[0]}}, {Op: "isnull", Kind: g6blib.KBool, Args: []*g6blib.Expr{n.Args[1]}}}}
+	res := exec(s, pc.rebuild(isNull)[0])
+	if res.err != "" {
+		return false
+	}
+	nulls := map[string]bool{}
+	for _, r := range res.rows {
+		if pc.pos == "filter" || strings.HasSuffix(r, "|1") {
+			nulls[key(r)] = true
+		}
+	}
+	for k := range diff {
+		if !nulls[k] {
+			return false
+		}
+	}
+	return len(diff) > 0
+}
+
+type pinnedGroup struct {
+	sig, what string
+	setup     []string
+	spells    []spelling
+	wantPanic bool
+}
+
+func pinnedGroups() []pinnedGroup {
+	tu := []string{
+		"CREATE TABLE t (id INT PRIMARY KEY, a INT, b INT, s VARCHAR(20) COLLATE utf8mb4_0900_bin, c VARCHAR(20) COLLATE utf8mb4_0900_ai_ci, KEY ka (a))",
+		"INSERT INTO t VALUES (1,1,2,'a','a'),(2,2,NULL,'A','A'),(3,NULL,3,NULL,'b'),(4,3,3,'b',NULL),(5,5,1,'B','B ')",
+		"CREATE TABLE u (id INT PRIMARY KEY, a INT, KEY ka (a))",
+		"INSERT INTO u VALUES (1,1),(2,NULL),(3,3),(4,3),(5,3),(6,5),(7,3),(8,5)",
+	}
+	q := func(n, s string) spelling { return spelling{name: n, query: s} }
+	return []pinnedGroup{
+		{sig: sigF5, what: "c IN ('A','B') over utf8mb4_0900_ai_ci returns 1 row, c = 'A' OR c = 'B' returns 3", setup: tu,
+			spells: []spelling{q("in-list", "SELECT id FROM t WHERE c IN ('A', 'B')"), q("or-chain", "SELECT id FROM t WHERE (c = 'A' OR c = 'B')")}},
+		{sig: sigF14, what: "b IN (1, 2.5, 2, 5) keeps b = 3 (2.5 hashed as 3), the OR chain does not", setup: tu,
+			spells: []spelling{q("in-list", "SELECT id FROM t WHERE b IN (1, 2.5, 2, 5)"), q("or-chain", "SELECT id FROM t WHERE (b = 1 OR b = 2.5 OR b = 2 OR b = 5)")}},
+		{sig: sigF10, what: "a IN (2.5) on an indexed INT column panics (nil dereference), a = 2.5 returns no row", setup: tu, wantPanic: true,
+			spells: []spelling{q("in-list", "SELECT id FROM t WHERE a IN (2.5)"), q("or-chain", "SELECT id FROM t WHERE a = 2.5")}},
+		{sig: sigTupNull, what: "(1, s) NOT IN ((1, 'B')) returns the row with s NULL (NOT ((1 = 1) AND (s = 'B')) is NULL there); (10, s) IN ((10, NULL)) returns the rows with s NULL", setup: tu,
+			spells: []spelling{q("in-list", "SELECT id FROM t WHERE (1, s) NOT IN ((1, 'B'))"), q("or-chain", "SELECT id FROM t WHERE NOT ((1 = 1) AND (s = 'B'))")}},
+		{sig: sigErrEmpty, what: "JOIN … ON FALSE WHERE EXISTS (subquery) fails with 'failed to replan join: unknown type for rel output cols: *memo.EmptyTable'; the comma-join spelling returns the empty result", setup: tu,
+			spells: []spelling{q("join-on", "SELECT x0.id, x1.id FROM u x0 JOIN t x1 ON FALSE WHERE (EXISTS (SELECT 1 FROM u s1 WHERE (s1.a = x0.id)))"),
+				q("comma-where", "SELECT x0.id, x1.id FROM u x0, t x1 WHERE FALSE AND (EXISTS (SELECT 1 FROM u s1 WHERE (s1.a = x0.id)))")}},
+		{sig: sigErrTupNil, what: "(a, NULL) IN ((2, 1)) as a filter fails with 'value not nil'; (a = 2 AND NULL = 1) evaluates to NULL", setup: tu,
+			spells: []spelling{q("in-list", "SELECT id FROM t WHERE ((a, NULL) IN ((2, 1), (3, 3)))"), q("or-chain", "SELECT id FROM t WHERE (((a = 2) AND (NULL = 1)) OR ((a = 3) AND (NULL = 3)))")}},
+		{sig: sigG1, what: "d NOT IN (1.50) over an indexed DECIMAL column is right, NOT (d = 1.50) keeps the rows with d = 1.50 (index range (NULL, inf))",
+			setup:  []string{"CREATE TABLE w (id INT PRIMARY KEY, d DECIMAL(8,2), KEY kd (d))", "INSERT INTO w VALUES (1, 1.50), (2, 2.50), (3, NULL), (4, 1.50)"},
+			spells: []spelling{q("in-list", "SELECT id FROM w WHERE d NOT IN (1.50)"), q("or-chain", "SELECT id FROM w WHERE NOT (d = 1.50)")}},
+		{sig: sigHashCI, what: "JOIN ON x0.b = x1.b AND x0.c = REVERSE(x1.c) over _ai_ci columns (HashJoin key (b, c)) misses ('b','B'); the comma join (HashJoin on b + Filter) finds it",
+			setup:  []string{"CREATE TABLE t2 (id INT PRIMARY KEY, b INT NOT NULL, c VARCHAR(20) COLLATE utf8mb4_0900_ai_ci)", "INSERT INTO t2 VALUES (2, 10, 'B'), (3, -1, 'b%')", "CREATE TABLE u2 (id INT PRIMARY KEY, b INT NOT NULL, c VARCHAR(20) COLLATE utf8mb4_0900_ai_ci)", "INSERT INTO u2 VALUES (5, 10, 'b'), (6, 7, 'b%'), (3, 10, 'ab')"},
+			spells: []spelling{q("join-on", "SELECT /*+ HASH_JOIN(x0,x1) */ x0.id, x1.id FROM u2 x0 JOIN t2 x1 ON ((x0.b = x1.b) AND (x0.c = REVERSE(x1.c)))"), q("comma-where", "SELECT x0.id, x1.id FROM u2 x0, t2 x1 WHERE ((x0.b = x1.b) AND (x0.c = REVERSE(x1.c)))")}},
+		{sig: sigScalarAnti, what: "WHERE (5 <> (SELECT COUNT(a) FROM u)) AND d IN (SELECT d FROM t) [OR constant-false]: with the constant folded the plan is SemiJoin over AntiJoin(5 = count) and returns rows although 5 <> 5 is FALSE; with `10 BETWEEN 0 AND -1` unfolded the subqueries stay filter expressions and nothing is returned",
+			setup: []string{"CREATE TABLE t3 (id INT PRIMARY KEY, d DECIMAL(8,2))", "INSERT INTO t3 VALUES (1, 100.00), (2, 1.50), (3, 100.00), (4, NULL)", "CREATE TABLE u3 (id INT PRIMARY KEY, a INT)", "INSERT INTO u3 VALUES (1, 3), (2, 3), (3, -1), (4, NULL), (5, -1), (6, 3)"},
+			spells: []spelling{q("between", "SELECT x0.id FROM t3 x0 WHERE (((5 <> (SELECT COUNT(s2.a) FROM u3 s2)) AND (x0.d IN (SELECT s3.d FROM t3 s3))) OR (10 BETWEEN 0 AND (-1)))"),
+				q("comparisons", "SELECT x0.id FROM t3 x0 WHERE (((5 <> (SELECT COUNT(s2.a) FROM u3 s2)) AND (x0.d IN (SELECT s3.d FROM t3 s3))) OR ((10 >= 0) AND (10 <= (-1))))")}},
+		{sig: sigF9, what: "JOIN … ON … WHERE x0.id NOT IN (SELECT a FROM u) (LeftOuterMergeJoin + IS NULL) returns rows, the comma-join spelling (AntiJoin) returns none", setup: tu,
+			spells: []spelling{q("join-on", "SELECT x0.id, x1.id FROM t x0 JOIN u x1 ON (x1.id <= 2) WHERE (x0.id NOT IN (SELECT s1.a FROM u s1))"),
+				q("comma-where", "SELECT x0.id, x1.id FROM t x0, u x1 WHERE (x1.id <= 2) AND (x0.id NOT IN (SELECT s1.a FROM u s1))")}},
+	}
+}
+
+func pinned(r *core.Run) {
+	for _, pg := range pinnedGroups() {
+		e := core.NewEng("d")
+		s := e.NewSess()
+		for _, q := range pg.setup {
+			s.MustExec(q)
+		}
+		v, mode, det, pn := compare(s, pg.spells)
+		still := v == "violated"
+		if strings.HasPrefix(pg.sig, "c06:") {
+			still = v == "error-asymmetry" && strings.HasSuffix(pg.sig, ":error-in-one-spelling:"+mode)
+		}
+		if pg.wantPanic {
+			still = v == "panic" && strings.HasPrefix(pn.Sig(), "panic:sql/transform.Expr:runtime error: invalid memory address")
+		}
+		det["mode"] = mode
+		det["setup"] = pg.setup
+		r.Pinned(pg.sig, pg.what, still, det)
+		r.Count("pinned."+pg.sig, 1)
+		e.Close()
+	}
+}
